@@ -382,6 +382,7 @@ class Monitor:
     level: str = "exploration"
     hard_timeout: dict = field(default_factory=lambda: {"quick": 900, "thorough": 7200})
     max_shards: int = 16
+    decoy: bool = False       # precede every judged c.call by a decoy call (see CaseCtx._decoy_call); checks may switch it off
     setup: callable | None = None      # called once per shard after dreye import
     exhaustive_claim: str = ""         # non-empty: which finite space this monitor enumerates completely (evidence.exhaustive)
 
